@@ -148,6 +148,16 @@ impl Deserializable for Context {
         // read options
         let options = ProofOptions::read_from(source)?;
 
+        // enforce the limits the constructor enforces
+        let trace_length = trace_info.length();
+        if trace_length > u32::MAX as usize
+            || trace_length * options.blowup_factor() > u32::MAX as usize
+        {
+            return Err(DeserializationError::InvalidValue(
+                "trace length and LDE domain size cannot exceed 2^32 - 1".to_string(),
+            ));
+        }
+
         Ok(Context { trace_info, field_modulus_bytes, options })
     }
 }
